@@ -146,18 +146,18 @@ def gen_names(rng, n):
 # ------------------------------------------------------------------ (a) model tie on names
 
 def tie_names(ctx):
-    n = 1500 if ctx.tier == 'quick' else 12000
+    n = 800 if ctx.tier == 'quick' else 12000
     rng = ctx.sub_rng('names')
     names = gen_names(rng, n)
     exprs = []
     meta = []
-    for nm in names:
-        if len(nm) > 200 and rng.random() < 0.0:   # long names only through valid_case
-            continue
-        exprs.append('natkey_case %s' % codes(nm))
-        meta.append(('natkey', nm))
-        exprs.append('tracekey_case %s' % codes(nm))
-        meta.append(('tracekey', nm))
+    CHK = 40
+    for k in range(0, len(names), CHK):
+        chunk = names[k:k + CHK]
+        exprs.append('map natkey_case %s' % clist(codes(x) for x in chunk))
+        meta.append(('natkey', chunk))
+        exprs.append('map tracekey_case %s' % clist(codes(x) for x in chunk))
+        meta.append(('tracekey', chunk))
     # validity of every name
     CH = 100
     for k in range(0, len(names), CH):
@@ -165,7 +165,7 @@ def tie_names(ctx):
         exprs.append('valid_case %s' % clist(codes(x) for x in chunk))
         meta.append(('valid', chunk))
     # sorting lists (with duplicates removed: a dict / set of names has none) and sanitizer runs
-    nlists = 60 if ctx.tier == 'quick' else 400
+    nlists = 40 if ctx.tier == 'quick' else 400
     short = [x for x in names if len(x) < 40 and '\n' not in x]
     for i in range(nlists):
         r = ctx.sub_rng('namelist', i)
@@ -187,7 +187,7 @@ def tie_names(ctx):
         pre = r.choice(['_ver_out_tmp_', '_vcd_tmp_'])
         exprs.append('sanitize_case %s %s' % (codes(pre), clist(codes(x) for x in lst)))
         meta.append(('sanitize', (pre, lst)))
-    results = ctx.coq_eval(exprs, IMPORTS, tag='c20names', shard=250, jobs=12)
+    results = ctx.coq_eval(exprs, IMPORTS, tag='c20names', shard=20, jobs=12)
 
     class Obj(object):
         def __init__(self, name):
@@ -196,21 +196,22 @@ def tie_names(ctx):
     for m, r in zip(meta, results):
         kind = m[0]
         if kind in ('natkey', 'tracekey'):
-            nm = m[1]
             fn = ie._natural_sort_key if kind == 'natkey' else psim._trace_sort_key
-            try:
-                real = enc_real_key(fn(nm))
-            except Exception as e:
-                ctx.spec_violation('key-function-raises:%s' % type(e).__name__,
-                                   '%s(%r) raised %r' % (fn.__name__, nm, e), {'name': nm})
-                continue
-            ctx.case((kind, nm), nontrivial=any(c.isdigit() for c in nm),
-                     sample={'name': nm, 'key': repr(fn(nm))[:80]} if nm in ('tmp018', 'a01b2') and kind == 'natkey' else None)
-            ctx.count('name_shape', 'leading-zero run' if W.strip_zeros(nm) != nm else
-                      ('digits' if any(c.isdigit() for c in nm) else 'no digits'))
-            if real != [list(x) for x in r]:
-                ctx.model_mismatch('%s(%r): Coq model %r != real %r' % (fn.__name__, nm, r, real),
-                                   {'name': nm, 'model': r, 'real': real})
+            for nm, rk in zip(m[1], r):
+                try:
+                    real = enc_real_key(fn(nm))
+                except Exception as e:
+                    ctx.spec_violation('key-function-raises:%s' % type(e).__name__,
+                                       '%s(%r) raised %r' % (fn.__name__, nm, e), {'name': nm})
+                    continue
+                ctx.case((kind, nm), nontrivial=any(c.isdigit() for c in nm),
+                         sample={'name': nm, 'key': repr(fn(nm))[:80]}
+                         if nm in ('tmp018', 'a01b2') and kind == 'natkey' else None)
+                ctx.count('name_shape', 'leading-zero run' if W.strip_zeros(nm) != nm else
+                          ('digits' if any(c.isdigit() for c in nm) else 'no digits'))
+                if real != [list(x) for x in rk]:
+                    ctx.model_mismatch('%s(%r): Coq model %r != real %r' % (fn.__name__, nm, rk, real),
+                                       {'name': nm, 'model': rk, 'real': real})
         elif kind == 'valid':
             san = ie._VerilogSanitizer('_p_')
             for nm, mv in zip(m[1], r):
@@ -499,7 +500,7 @@ def tie_emitters(ctx, exp_res, textdir, specs, per_design):
             if so in seen_orders:
                 continue
             seen_orders.add(so)
-            if picked >= per_design:
+            if picked >= per_design or (per_design == 1 and int(key[1:]) % 3 == 2):
                 continue
             picked += 1
             add_reset = r['opts']['add_reset'] != 'False'
@@ -514,7 +515,7 @@ def tie_emitters(ctx, exp_res, textdir, specs, per_design):
             meta.append(('trace', key, cfg, r))
             exprs.append('vcd_case %s %s' % (tr, tr))
             meta.append(('vcd', key, cfg, r))
-    results = ctx.coq_eval(exprs, IMPORTS, tag='c20emit', shard=24, jobs=12)
+    results = ctx.coq_eval(exprs, IMPORTS, tag='c20emit', shard=16, jobs=12)
     for m, zs in zip(meta, results):
         kind, key, cfg, r = m[0], m[1], m[2], m[3]
         rep = {'design': key, 'seed': ctx.seed, 'config': list(cfg), 'exporter': kind}
@@ -732,13 +733,13 @@ def run(ctx):
     ctx.notes.append('export workers done at %.1fs' % (time.time() - t0))
     search_exports(ctx, exp_res, textdir, specs)
     ctx.notes.append('search_exports done at %.1fs' % (time.time() - t0))
-    tie_emitters(ctx, exp_res, textdir, specs, per_design=2 if quick else 4)
+    tie_emitters(ctx, exp_res, textdir, specs, per_design=1 if quick else 4)
     ctx.notes.append('tie_emitters done at %.1fs' % (time.time() - t0))
-    pspecs = make_specs(ctx, 18 if quick else 80, 'p', ['plain', 'zeros', 'sani'])
-    pconfigs = make_configs(ctx, 3 if quick else 6, [0, 4])
+    pspecs = make_specs(ctx, 9 if quick else 80, 'p', ['plain', 'zeros', 'sani'])
+    pconfigs = make_configs(ctx, 2 if quick else 6, [0, 4])
     for s in pspecs:
         s['max_ops'] = 10
-    pres, _ = run_workers(ctx, 'passes', pspecs, pconfigs, batch=9 if quick else 20, tag='pass')
+    pres, _ = run_workers(ctx, 'passes', pspecs, pconfigs, batch=3 if quick else 20, tag='pass')
     search_passes(ctx, pres, pspecs)
     ctx.notes.append('passes done at %.1fs' % (time.time() - t0))
     rspecs = make_specs(ctx, 24 if quick else 120, 'r', ['plain', 'both', 'memtie', 'sani'])
